@@ -351,6 +351,18 @@ theorem C13_reoffer_carries_retry_delay (c : Cond) (offers : List Offer) (c' : C
   obtain ⟨sx, hsx, h1, h2, h3⟩ := nextFrom_delay E (nextTodo c.st) c c' offers h o ho
   exact ⟨sx, (nextTodo_sub c.st sx hsx).1, h1, h2, h3⟩
 
+/-- **C12/C13**: nothing is offered from a staged entry that is flagged completed (the entry a
+    failed with-items task keeps for a manual rerun) or that is not ready -/
+theorem C12_completed_entry_not_offered (c : Cond) (offers : List Offer) (c' : Cond)
+    (h : getNextTasks E c = (.ok offers, c')) :
+    ∀ o ∈ offers, ∃ sx ∈ c.st.staged, sx.id = o.id ∧ sx.route = o.route ∧ sx.ready = true ∧ sx.completed = false := by
+  intro o ho
+  obtain ⟨sx, hsx, h1, h2, _⟩ := C01_offer_from_staged E c offers c' h o ho
+  unfold WState.readyStaged at hsx
+  obtain ⟨hmem, hp⟩ := List.mem_filter.mp hsx
+  simp only [Bool.and_eq_true, Bool.not_eq_eq_eq_not, Bool.not_true] at hp
+  exact ⟨sx, hmem, h1, h2, hp.1, hp.2⟩
+
 /-- non-vacuity: a state with a published snapshot reaching a staged task -/
 def exampleStateCA : Cond where
   spec := ⟨[], [], [], []⟩
